@@ -234,7 +234,13 @@ class Interp:
                         ast.unparse(node).split("\n")[0]
                 if sub in src:
                     for hn in names:
-                        self.oblige(st, self.specs.eval_invariant(self, c, hn, st, node, None), "hint", hn, self.where(node))
+                        try:
+                            hv = self.specs.eval_invariant(self, c, hn, st, node, None)
+                        except Unbound:
+                            if hn in c.opts.get("optional_hints", ()):
+                                continue
+                            raise
+                        self.oblige(st, hv, "hint", hn, self.where(node))
         m = getattr(self, "s_" + type(node).__name__, None)
         if m is None:
             raise EngineError(f"unsupported statement {type(node).__name__} at {self.where(node)} in {st.frame.funcqual}")
